@@ -36,15 +36,7 @@ impl DefCtx {
             return Err("leaf count mismatch".into());
         }
         let dense = graph.dense();
-        let has_look = def.pats.iter().any(|p| {
-            p.kind != PatKind::Token && {
-                let t = String::from_utf8_lossy(&p.lit.data);
-                t.contains('$') || t.contains("\\b") || t.contains("\\B") || t.contains("\\z") || t.contains("\\A") || t.contains('^')
-            }
-        }) || def.subpats.iter().any(|(_, l)| {
-            let t = String::from_utf8_lossy(&l.data);
-            t.contains('$') || t.contains("\\b") || t.contains("\\B") || t.contains("\\z") || t.contains('^')
-        });
+        let has_look = def.has_look();
         Ok(DefCtx { def, graph, dense, reference, prio, has_look })
     }
 
